@@ -154,6 +154,16 @@ type NetFed struct {
 
 // NewNetFed builds the gateway with nothing but the options given.
 func NewNetFed(spec FedSpec, store Store, opts ...gateway.Option) (nf *NetFed, err error) {
+	return newNetFed(spec, store, false, opts...)
+}
+
+// NewNetFedIntrospected: as NewNetFed, with every service's schema rebuilt from the service's answer to the
+// introspection query — which is how the gateway service (cmd/gateway) obtains its schemas.
+func NewNetFedIntrospected(spec FedSpec, store Store, opts ...gateway.Option) (nf *NetFed, err error) {
+	return newNetFed(spec, store, true, opts...)
+}
+
+func newNetFed(spec FedSpec, store Store, introspected bool, opts ...gateway.Option) (nf *NetFed, err error) {
 	netInstall.Do(func() { http.DefaultTransport = netRouter{} })
 	n := atomic.AddInt64(&netFedSeq, 1)
 	nf = &NetFed{Services: map[string]*netService{}}
@@ -168,7 +178,14 @@ func NewNetFed(spec FedSpec, store Store, opts ...gateway.Option) (nf *NetFed, e
 		netHosts.Store(host, ns)
 		nf.hosts = append(nf.hosts, host)
 		nf.Services[url] = ns
-		sources = append(sources, &graphql.RemoteSchema{Schema: sch, URL: "http://" + host + "/"})
+		given := sch
+		if introspected {
+			given, e = IntrospectedSchema(sch)
+			if e != nil {
+				return nil, fmt.Errorf("introspection of %s: %v", url, e)
+			}
+		}
+		sources = append(sources, &graphql.RemoteSchema{Schema: given, URL: "http://" + host + "/"})
 	}
 	// the gateway's own default logger stays in place (it formats every step's selection set each time the step is executed)
 	all := append([]gateway.Option{}, opts...)
@@ -251,6 +268,8 @@ type NetTwinCase struct {
 	Spec   *FedSpec `json:"fed,omitempty"`
 	OddIDs bool     `json:"odd_ids,omitempty"`
 	OpName string   `json:"operation_name,omitempty"`
+	// Introspected: the gateway is given schemas rebuilt from each service's introspection answer (as cmd/gateway does)
+	Introspected bool `json:"introspected_schemas,omitempty"`
 }
 
 func netStore(tc NetTwinCase) Store {
@@ -293,8 +312,15 @@ func RunNetTwin(tc NetTwinCase) []Failure {
 	if tc.Spec != nil {
 		spec = *tc.Spec
 	}
-	nf, err := NewNetFed(spec, store, opts...)
+	nf, err := newNetFed(spec, store, tc.Introspected, opts...)
 	if err != nil {
+		if tc.Introspected && !strings.HasPrefix(err.Error(), "PANIC") {
+			// with schemas parsed from SDL the same services make a gateway (the twin below); rebuilt from their own
+			// introspection answers they must too
+			if _, e2 := NewFed(spec, store); e2 == nil {
+				return bad("a gateway cannot be built from the services' introspected schemas although it can from their SDL: "+err.Error(), nil, nil)
+			}
+		}
 		return []Failure{{Channel: "harness", Classifier: "harness-error", What: err.Error(), Input: tc}}
 	}
 	defer nf.Close()
